@@ -45,15 +45,23 @@ THang == /\ Rec.e = "Hang"
          /\ viol' = viol \cup {[clause |-> "C06.Terminates", rec |-> l, run |-> Rec.run, ev |-> Rec.ev]}
          /\ UNCHANGED <<digest, stat, cur>>
 \* tallies accumulated over all streams: a function of the set of events transported
+\* (calo: per-detector totals as <<detector, round(E q), round(E q + 1/2)>>: floating-point sums taken in
+\* a different order over the streams agree in at least one of the two staggered roundings)
+CaloAgree(a, b) == /\ Len(a) = Len(b)
+                   /\ \A i \in DOMAIN a : a[i][1] = b[i][1] /\ (a[i][2] = b[i][2] \/ a[i][3] = b[i][3])
 TTally ==
   /\ Rec.e = "Tally"
   /\ LET k == <<"tally", Rec.events>> IN
      IF k \in DOMAIN digest
      THEN /\ digest' = digest
-          /\ viol' = IF ToSetOf(digest[k].stream) = ToSetOf(Rec.actions) THEN viol
-                     ELSE viol \cup {[clause |-> "C07.TalliesSerialEquivalent", rec |-> l, run |-> Rec.run,
-                                      firstrun |-> digest[k].run]}
-     ELSE /\ digest' = [x \in (DOMAIN digest) \cup {k} |-> IF x = k THEN [stream |-> Rec.actions, run |-> Rec.run] ELSE digest[x]]
+          /\ viol' = viol \cup
+                (IF ToSetOf(digest[k].stream) = ToSetOf(Rec.actions) THEN {}
+                 ELSE {[clause |-> "C07.TalliesSerialEquivalent", rec |-> l, run |-> Rec.run, firstrun |-> digest[k].run]})
+                \cup
+                (IF CaloAgree(digest[k].calo, Rec.calo) THEN {}
+                 ELSE {[clause |-> "C07.CaloSerialEquivalent", rec |-> l, run |-> Rec.run, firstrun |-> digest[k].run]})
+     ELSE /\ digest' = [x \in (DOMAIN digest) \cup {k} |->
+                          IF x = k THEN [stream |-> Rec.actions, calo |-> Rec.calo, run |-> Rec.run] ELSE digest[x]]
           /\ viol' = viol
   /\ UNCHANGED <<stat, cur>>
 TSchedule == Rec.e = "Schedule" /\ UNCHANGED <<digest, viol, stat, cur>>
